@@ -232,11 +232,11 @@ def snapshot_repro(ctx):
     binary = vlib.full_binary()
     configs = [((2, 2, 2), "0.1", 5000, 3, 42, "true")]
     if ctx.thorough:
-        configs += [((1, 1, 1), "0.", 3001, 2, 1, "false"), ((2, 1, 4), "0.1", 4999, 2, 2147483647, "true"), ((4, 2, 2), "0.05", 2000, 4, 0, "false")]
+        configs += [((1, 1, 1), "0.", 3001, 2, 1, "false"), ((2, 1, 4), "0.1", 4999, 2, 2147483647, "true"), ((4, 2, 2), "0.05", 2000, 4, 5, "false")]
     done = []
     for (sub, he, nph, nit, seed, diffuse) in configs:
         digests = []
-        for rep, sd in ((0, seed), (1, seed), (2, seed + 1)):
+        for rep, sd in ((0, seed), (1, seed), (2, (seed % 2147483000) + 7)):   # a different effective seed (seed 0 = seed 1 by design)
             d = tempfile.mkdtemp(prefix="verif_c13_")
             param = ION_PARAM % (sub[0], sub[1], sub[2], he, nph, nit, sd, diffuse)
             res = simrun.run_sim(binary, param, ["--task-based"], threads=1, timeout=300, trace=False, workdir=d)
@@ -257,7 +257,7 @@ def snapshot_repro(ctx):
                 ctx.violation("snapshot:not-reproducible", "two single-thread runs of the same parameter file (seed %d) wrote different snapshots" % seed,
                               {"param": ION_PARAM % (sub[0], sub[1], sub[2], he, nph, nit, seed, diffuse), "cmd": "CMacIonize --params run.param --task-based --threads 1 (twice; compare snap*.txt)"})
             if digests[0] == digests[2]:
-                ctx.violation("snapshot:seed-ignored", "seeds %d and %d gave byte-identical snapshots" % (seed, seed + 1),
+                ctx.violation("snapshot:seed-ignored", "seeds %d and %d gave byte-identical snapshots" % (seed, (seed % 2147483000) + 7),
                               {"param": ION_PARAM % (sub[0], sub[1], sub[2], he, nph, nit, seed, diffuse)})
             done.append({"subgrids": sub, "seed": seed, "sha256": digests[0][:16]})
     ctx.cov["snapshot_reproducibility_experiment"] = done
